@@ -63,6 +63,7 @@ func (c *Case) Known(v Verdict) bool {
 }
 
 func NewCase(prop, tier string, t *simrt.Tape) *Case {
+	incEpoch = 0
 	return &Case{Prop: prop, Tier: tier, Tape: t, Features: map[string]bool{}, Faults: map[string]int{}, Probes: map[string]int{}, Hash: 14695981039346656037}
 }
 
